@@ -24,7 +24,8 @@ type arg struct {
 	Spare  int    `json:"spare_capacity"`
 }
 
-var dates = []date.Date{{}, date.New(2024, 2, 29), date.New(9999, 12, 31), date.New(0, 1, 1), date.New(123456789, 10, 11)}
+var dates = []date.Date{{}, date.New(2024, 2, 29), date.New(9999, 12, 31), date.New(0, 1, 1), date.New(123456789, 10, 11),
+	date.New(-1, 12, 31), date.New(-44, 3, 15), date.New(-99, 1, 1), date.New(-100, 6, 7), date.New(-9999, 2, 28), date.New(10000, 1, 1), date.New(7, 8, 9), date.New(999999999, 12, 31), date.New(-999999999, 1, 1)}
 var romans = []roman.Number{0, 1, 4, 9, 14, 40, 49, 90, 400, 444, 900, 999, 1994, 3888, 3999, 4999, 12000, 63999, 64000, 65444, 130000}
 var sems = []sem.Ver{{}, sem.New(1, 2, 3), sem.New(1, 0, 0, "alpha.1"), sem.New(18446744073709551615, 0, 7, "rc-1", "build.5"), sem.New(0, 0, 1, "", "exp.sha.5114f85"), sem.New(10, 20, 30, "-v-", "v1")}
 var sizes = []size.Size{0, 1, 999, 1000, 1023, 1024, 1025, 1234567, 1 << 20, 1 << 30, 123456789012, 1 << 60, 5 << 60, 18446744073709551615, 1000000, 100000 << 10}
